@@ -25,6 +25,9 @@ func c20Gen(r *rand.Rand, tier string) []spec.Case {
 		if c.G == 64 {
 			c.Ops = 3
 		}
+		if strings.HasPrefix(c.Kind, "client-") && (i/len(kinds))%2 == 1 {
+			c.AutoMTLS = true
+		}
 		out = append(out, spec.Case{Kind: c.Kind, P: spec.MustJSON(c)})
 	}
 	// process-wide state: managed clients created while CleanupClients runs (a host child of their own)
@@ -40,6 +43,9 @@ func c20Judge(c spec.Case, evs []spec.Event, d *Death) CaseResult {
 	jsonUnmarshal(c.P, &p)
 	res := CaseResult{Verdict: "held", Counters: map[string]int{}}
 	res.Class = fmt.Sprintf("%s g=%d shutdownRace=%v", p.Kind, p.G, p.ShutdownRace)
+	if p.AutoMTLS {
+		res.Class += " autoMTLS+startup-stderr"
+	}
 	viol := func(key, msg string) {
 		res.Verdict = "violated"
 		res.Violations = append(res.Violations, Violation{Key: "C20:" + key, Msg: fmt.Sprintf("%s [kind=%s goroutines=%d shutdownRace=%v seed=%d]", msg, p.Kind, p.G, p.ShutdownRace, p.Seed)})
